@@ -560,6 +560,7 @@ class ArrayCollection:
         self._layouts.pop(name)
         array = self._arrays.pop(name)
         self._update_shape()
+        self._axes = self.get_named_axes()
         return array
 
     # utilities
